@@ -20,7 +20,13 @@ def make(rng):
         frames += gen_core.serialise_item(rng, it)
     nev_pre = 4 + sum(len(it.expected()) for it in pre)      # connecting, connected, ready, poll, then pre events
     if sclose is not None:
-        frames += gen_core.serialise_item(rng, sclose)
+        cf = gen_core.serialise_item(rng, sclose)
+        if rng.random() < 0.25:
+            # the Close arrives between the fragments of an unfinished message (RFC 6455 5.4: control frames may be injected there)
+            opc, part = rng.choice([(1, 'caf\u00e9 '.encode('utf-8')), (1, b'\xe2\x82'), (2, b'\x00\xff'), (1, b'')])
+            frames += [gen_core.server_frame(opc, part, fin=0)] + cf + [gen_core.server_frame(0, b'\xac rest', fin=1)]
+        else:
+            frames += cf
     for it in post:
         frames += gen_core.serialise_item(rng, it)
     data = sc.good_reply() + b''.join(frames)
@@ -41,12 +47,13 @@ def make(rng):
             rx.setdefault(i, []).append(rng.choice([('send_text', ('s', [104, 105]), True), ('send_binary', ('b', b'\x00\x01'), True),
                                                     ('send_ping', ('b', b'')), ('close', 1001, ('b', b'again'))]))
     sc.reactions = rx
+    sc.server_close = sclose is not None       # the (valid) stream contains a server Close
     sc.ctimeout = rng.choice([30, 30, 30, 0, 0, 5])
     sc.zero = rng.random() < 0.5           # a disabled close timeout given as 0 rather than None
     return sc
 
 
-def judge(res, js, line, real):
+def judge(res, js, line, real, server_close=False):
     tk = toks(real)
     def fail(msg, cls='close-handshake'):
         res.failures.append(dict(cls=cls, what=msg, input=line[-1800:], scenario=js, observed=[t[:70] for t in tk[-10:]]))
@@ -72,6 +79,10 @@ def judge(res, js, line, real):
                 if tk[i] == 'R:ok' and tk[i - 1].startswith(('W:', 'Z:')):
                     return fail('a send after the Close frame was accepted', 'send-after-close')
     names = [t for t in tk if t.startswith('E:')]
+    # the stream is valid and contains a Close from the server: it must surface as Closing (server first) or Closed (client first)
+    if server_close and any(t.startswith('E:ready') for t in tk) and not any(t.startswith(('E:closing:', 'E:closed:')) for t in tk):
+        if not any(t.startswith('WF:') for t in tk) and not any(t.startswith('E:disconnected:close-timeout') for t in tk):
+            return fail('the server sent a Close frame in a valid stream but neither Closing nor Closed was reported', 'close-not-reported')
     # the handshake may only be cut short by the close timeout when that is enabled and has really elapsed
     if any(t.startswith('E:disconnected:close-timeout') for t in tk):
         elapsed = sum(st[1] for st in js['env'] if st[0] == 'wait')
@@ -119,19 +130,19 @@ def judge(res, js, line, real):
 def explore(res, tier, seed, model_ok=True):
     rng = random.Random(seed)
     n = 500 if tier == 'quick' else 8000
-    res.rule = ('%d histories: handshake, 0-3 messages, application close() at a random event (incl. Connecting/Connected/Ready) with code/reason variants, 0-3 more messages, server Close (valid code, empty, with reason) or none, more frames, EOF; '
+    res.rule = ('%d histories: handshake, 0-3 messages, application close() at a random event (incl. Connecting/Connected/Ready) with code/reason variants, 0-3 more messages, server Close (valid code, empty, with reason; in a quarter of the cases between the fragments of an unfinished text/binary message) or none, more frames, EOF; '
                 'application sends (text, binary, ping, second close) at random events; close_timeout 30 / 5 / disabled (given as None or as 0); oracle: wire opcode sequence, per-call results and event order judged by rules written from the property; '
                 'non-trivial = history containing a close() call or a server Close; distinct by operation line') % n
     scs = [make(rng) for _ in range(n)]
     pairs = coreutil.run_pairs(scs, model_ok)
-    for js, line, real, model in pairs:
+    for (js, line, real, model), sc in zip(pairs, scs):
         if isinstance(real, dict):
             res.crashes.append(real); continue
         res.case(line, nontrivial=('cl=' in line or 'E:closing' in real))
         for k in ('E:closing', 'E:closed', 'R:WebSocketClosing', 'R:WebSocketClosed'):
             if k in real:
                 res.count(k)
-        judge(res, js, line, real)
+        judge(res, js, line, real, sc.server_close)
     coreutil.check_corr(res, pairs)
     res.samples += [pairs[0][1][-300:], pairs[1][1][-300:]]
 
